@@ -537,6 +537,7 @@ def run_scan_buffer(ctx: Ctx) -> RuleResult:
     from ..exprs import find_pat
     repo = ctx.repo
     res = RuleResult('R-SCAN-BUFFER', 'the scan buffer is read-only in the scanners; all of it is carried over ignored text')
+    res.default_props = ['C01', 'C04', 'C20']
     n = 0
     for fq in ('lark.parsers.earley:Parser._parse.scan', 'lark.parsers.xearley:Parser._parse.scan'):
         f = repo.func(fq)
@@ -692,7 +693,7 @@ def run_scan_buffer(ctx: Ctx) -> RuleResult:
         res.ob('%s %s' % (x.loc(), x.qual), 'completed start items spanning the input are carried in their own table and join their column after the completer ran', ok2)
         if not ok2:
             res.finding(x, fills[0] if fills else x.node, 'carrying the completed start symbol over trailing ignored text changed shape: %s' % why,
-                        construct='carry-solutions')
+                        construct='carry-solutions', props=['C01', 'C04', 'C20'] + (['C08'] if 'never empties' in why else []))
     # dynamic_complete: every proper prefix of the longest match is tried (no early exit), and every match -- full or prefix -- is
     # filed under the position where *that* match ends
     pl = [l for l in x.body_nodes() if isinstance(l, ast.For) and isinstance(l.iter, ast.Call) and norm(l.iter.func) == 'range'
@@ -716,6 +717,9 @@ def run_scan_buffer(ctx: Ctx) -> RuleResult:
         mg = find_pat([tdef.value.args[1]] if len(tdef.value.args) > 1 else [], '$m.group(0)')
         if not mg:
             okk = False
+            res.finding(x, tdef, 'the token carried by a delayed match is built from %s, not from the text of its own match (m.group(0)): where the '
+                        'regexp matches less than the text tried, the token does not match its terminal and the leaves no longer spell the input'
+                        % (norm(tdef.value.args[1]) if len(tdef.value.args) > 1 else 'nothing'), construct='delayed-key:token-text')
             continue
         mvar = mg[0][1]['m']
         mdef = [a_ for a_ in x.body_nodes() if isinstance(a_, ast.Assign) and len(a_.targets) == 1 and norm(a_.targets[0]) == mvar
